@@ -1,7 +1,7 @@
 (* C15 model driver: same protocol as harness/drivers/c15_driver.cc, evaluated with the extracted model. *)
 open C15_model
 (* zio.ml.inc is not included: this model extracts no Z/positive; the four helpers needed are repeated here *)
-let rec nat_of_int (n : int) : nat = if n <= 0 then O else S (nat_of_int (n - 1))
+let nat_of_int (n : int) : nat = let rec go acc k = if k <= 0 then acc else go (S acc) (k - 1) in go O n
 let int_of_nat (n : nat) : int = let rec go acc = function O -> acc | S k -> go (acc + 1) k in go 0 n
 let split_ws (s : string) : string list = List.filter (fun x -> x <> "") (String.split_on_char ' ' s)
 let each_line (f : string -> string) : unit =
